@@ -7,6 +7,8 @@ mod bytecode;
 
 #[cfg(test)] mod tests;
 
+#[cfg(kondziu_fml_verif)] #[path = "/verif/harness/mod.rs"] mod verif_harness;
+
 use std::path::PathBuf;
 use std::fs::File;
 use std::io::{Read, BufReader, BufRead, Write, BufWriter};
@@ -520,5 +522,6 @@ impl std::fmt::Debug for NamedSink {
 }
 
 fn main() {
+    #[cfg(kondziu_fml_verif)] { if verif_harness::intercept() { return; } }
     Action::parse().execute();
 }
